@@ -104,6 +104,7 @@ def run_segment(ops: list, disk: str, segment: int = 0) -> dict:  # noqa: C901, 
 
     builders: dict[int, dict] = {}
     dumped: dict[str, object] = {}
+    kept: list = []
     events: list[dict] = []
     caches = zc.ampform_caches()
     cache_names = sorted(caches)
@@ -122,7 +123,7 @@ def run_segment(ops: list, disk: str, segment: int = 0) -> dict:  # noqa: C901, 
                     reaction = zc.fresh_copy(reaction)
                 builders[op["b"]] = {"builder": ampform.get_builder(reaction), "rx": op["rx"],
                                      "last": None, "dirty": True, "model": None}
-            elif b is None and kind not in ("evict", "load", "dump_expr", "load_expr"):
+            elif b is None and kind not in ("evict", "load", "dump_expr", "load_expr", "build_expr"):
                 ev["skipped"] = "no builder"
             elif kind == "align":
                 b["builder"].config.spin_alignment = zc.make_alignment(op["v"])
@@ -273,6 +274,11 @@ def run_segment(ops: list, disk: str, segment: int = 0) -> dict:  # noqa: C901, 
                 dumped[op["file"]] = entry
                 ev.update(file=op["file"], name=entry["name"], cls=entry["cls"], unfolded=entry["unfolded"],
                           digest=canon.ndigest(entry["expr"]) if entry["unfolded"] else canon.digest(entry["expr"]))
+            elif kind == "build_expr":
+                from . import z_exprs  # noqa: PLC0415
+
+                kept.append(z_exprs.pool_entry(op["e"])["expr"])
+                ev["name"] = op["e"]
             elif kind == "load_expr":
                 path = os.path.join(disk, op["file"])
                 if not os.path.exists(path):
